@@ -15,7 +15,8 @@ Inductive chspec :=
      (script : string).          (* the character's fragment of the gcs script *)
 Inductive enspec :=
   En (key : string) (level hp atk spd : Z) (attack : string) (hits dmg : Z) (dtype : string)
-     (weak : list Z).
+     (weak : list Z)
+     (rank stance : Z).          (* enemy rank override (0 = the enemy's own) and base toughness (0 = none given) *)
 Inductive runspec :=
   RS (chars : list chspec) (enemies : list enspec) (cycles : Z) (script : string) (seed : Z).
 
@@ -40,4 +41,4 @@ Definition ch_cone (c : chspec) : string :=
   let '(Ch _ _ _ _ _ _ _ _ _ (LC k _ _ _) _ _ _ _) := c in k.
 Definition ch_relics (c : chspec) : list string :=
   let '(Ch _ _ _ _ _ _ _ _ _ _ rs _ _ _) := c in map (fun r => let '(Rel k _) := r in k) rs.
-Definition en_key (e : enspec) : string := let '(En k _ _ _ _ _ _ _ _ _) := e in k.
+Definition en_key (e : enspec) : string := let '(En k _ _ _ _ _ _ _ _ _ _ _) := e in k.
